@@ -185,6 +185,34 @@ type transFacts struct {
 	MidnightGap     bool // forward change whose skipped wall-clock interval contains 00:00
 	MidnightOverlap bool // backward change whose repeated wall-clock interval contains 00:00
 	OffHour         bool // whole-hour change that does not happen on a whole wall-clock hour
+	DaySkip         bool // forward change whose skipped wall-clock interval contains a whole calendar day
+}
+
+// shape: ONE name for the matchers of known_findings.json - the most disruptive shape among
+// the offset-changing transitions in the window (a fact about the input: the zone table and
+// the window, never about the verdict).
+func (f transFacts) shape() string {
+	switch {
+	case f.DaySkip:
+		return "day_skip"
+	case f.NonHour:
+		return "non_hour_delta"
+	case f.MidnightGap:
+		return "midnight_gap"
+	case f.MidnightOverlap:
+		return "midnight_overlap"
+	case f.OffHour:
+		return "off_hour"
+	case f.Any:
+		return "hour_aligned"
+	}
+	return "none"
+}
+
+// containsDay: some whole calendar day [k*86400, (k+1)*86400) inside [a, b).
+func containsDay(a, b int64) bool {
+	k := floorDiv(a+day-1, day)
+	return (k+1)*day <= b
 }
 
 func floorDiv(a, b int64) int64 {
@@ -222,6 +250,9 @@ func (z *zoneTab) factsIn(lo, hi int64) transFacts {
 		}
 		if d > 0 && containsMidnight(tr.Start+before, tr.Start+tr.Off) {
 			f.MidnightGap = true
+		}
+		if d > 0 && containsDay(tr.Start+before, tr.Start+tr.Off) {
+			f.DaySkip = true
 		}
 		if d < 0 && containsMidnight(tr.Start+tr.Off, tr.Start+before) {
 			f.MidnightOverlap = true
